@@ -48,6 +48,7 @@ TARGETS = [
     ("params", "q", "p"), ("params", "kd", None), ("recursion", "y", "n"), ("recursion", "x", "n"),
     ("plain", "#value", "x"), ("no_return", "#value", "x"), ("for_loop", "#value", "x"), ("recursion", "#value", "n"),
     ("starred", "p", None), ("unpack_kinds", "q", None), ("closure_nonlocal", "y", "x"), ("globals_rw", "y", "x"),
+    ("unpack_order", "j", "i"),
 ]
 GEN_TARGETS = [("gen_loop", "tot", "i"), ("gen_loop", "#yield", "i"), ("gen_stmt", "k", "i"), ("gen_loop", "got", None)]
 
